@@ -4,6 +4,7 @@ CONSTANTS
   Rejected <- RejectedAll
   TruncPoints <- TruncClasses
   Spellings = {"rel"}
+  Placement = "file"
   Cwds = {"pkg"}
   RecordHist = FALSE
   MaxHist = 0
